@@ -112,6 +112,12 @@ def run(rep, wd, tier, seed):
                 data = ipmc.write_file(msgs, enc, bc, True)
                 traces.append(trace(len(traces), data, True, True, fam, '%s blocked writer file whose data is exactly %d x 1012 bytes (%d records), %d bytes'
                                     % (enc, k, len(sizes), len(data))))
+        for first in (266, 522, 2570):
+            data = ipmc.write_file([isoc.message_exact(first, enc), isoc.message_exact(300, enc)], enc, bc, True)
+            traces.append(trace(len(traces), data, True, True, fam, '%s blocked writer file whose first record is %d bytes (x0A in its length)' % (enc, first)))
+        lf = {'MTI': '1240', 'DE3': '123456', 'DE72': 'line one\nline two\r\nline three', 'DE93': '12345', 'DE95': '1234567890'}
+        data = ipmc.write_file([lf, lf], enc, bc, True)
+        traces.append(trace(len(traces), data, True, True, fam, '%s blocked writer file with line feeds in text and bitmap byte x0A' % enc))
         for first in (2496, 2497, 2600, 4000, 5990):
             for blocked in (True, False):
                 data = ipmc.write_file([isoc.message_exact(first, enc), {'MTI': '1240', 'DE3': '123456'}], enc, bc, blocked)
